@@ -144,6 +144,14 @@ def check(ctx):
     ok = (ra is not None and ra[0] == "phi" and ra[1] == at
           and is_call(ra[2], "liesel.model.nodes._unique_tuple")
           and ra[2][2] in ((sup, ("list", (at,))), (sup, ("tuple", (at,)))) and ra[3] == sup)
+    if not ok and ra is not None and is_call(ra, "liesel.model.nodes._unique_tuple") \
+            and len(ra[2]) == 2 and ra[2][0] == sup:
+        # the same set of edges with the choice inside the call:
+        # _unique_tuple(inherited, [at] if at else [])
+        x = ra[2][1]
+        ok = (x[0] in ("phi", "ifexp") and x[1] == at
+              and x[2] in (("list", (at,)), ("tuple", (at,)))
+              and x[3][0] in ("list", "tuple") and x[3][1] == ())
     ctx.ob("C01.R2", ain, "Dist.all_input_nodes() = inherited inputs plus the evaluation "
                           "point `at` (when set), so `at` is an edge of the graph", ok,
            detail=short(ra or ()), stmt="Dist inputs " + pretty(ra or ())[:160])
